@@ -170,3 +170,40 @@ Theorem C19_refuted_int_enum : forall n32,
   asm pinned LType n32 t_enum s_enum (zero_of s_enum) false (DMap [(fE, DString [71])]) = Err PReflect.
 Proof. exact int_enum_refuted. Qed.
 Print Assumptions C19_refuted_int_enum.
+
+(* ====================================================================================================
+   DAG-JSON instance (json cluster): Marshal / Unmarshal through the concrete DAG-JSON model
+   (Codec/DagJson.v; proof Proofs/BindJson.v over Proofs/JsonPerm.v, from C04's theorems).
+   json_enc = the text dagjson.Encode writes (C19_dagjson_encoder), json_bdec = dagjson.Decode demanding that
+   all input is consumed.  Hypotheses that remain, as premises (definitions at the end of Proofs/JsonMain.v,
+   sampled on the real code by ./check C04): A1 (ParseFloat inverts emitFloat), A2 (emitFloat's text has
+   '.'/exponent iff the float is not an integer below 1e21), CID (cid.Decode inverts Cid.String(), valid UTF-8).
+   json_within cid_ok d = dag-json's domain: finite floats none of which is an integer below 1e21 (the known
+   C04 finding), valid UTF-8 strings and keys, int64 ints, defined CIDs, distinct keys and none of the two
+   reserved shapes inside Any content, decoder depth within the default limit. *)
+Require Import IP.Codec.DagJson IP.Proofs.JsonMain IP.Proofs.JsonPerm IP.Proofs.BindJson.
+
+Theorem C19_marshal_roundtrip_dagjson : forall fmt_float parse_float cid_str cid_parse cid_ok,
+  JsonMain.A1 fmt_float parse_float -> JsonMain.A2 fmt_float -> JsonMain.CID cid_str cid_parse cid_ok ->
+  forall q n32 t s g,
+  is_any t = false -> bindable t s = true -> gv_ok q n32 t s g = true ->
+  json_within cid_ok (denote LRepr t g) ->
+  exists b g', marshal q (json_enc fmt_float cid_str) t s g = Ok b /\
+               unmarshal q n32 (json_bdec parse_float cid_parse) t s b = Ok g' /\
+               gv_ok q n32 t s g' = true /\
+               perm_eq (denote LRepr t g) (denote LRepr t g') /\
+               marshal q (json_enc fmt_float cid_str) t s g' = Ok b.
+Proof. exact marshal_roundtrip_dagjson. Qed.
+Print Assumptions C19_marshal_roundtrip_dagjson.
+
+Theorem C19_dagjson_encoder : forall fmt_float cid_str cid_ok d, JsonEnc.encodable cid_ok d = true ->
+  jenc fmt_float cid_str dagjson_eopts cid_ok d = Ok (json_enc fmt_float cid_str d).
+Proof. exact json_enc_is_encode. Qed.
+Print Assumptions C19_dagjson_encoder.
+
+(* the premises are satisfiable (ordered map {String:Int} with Keys [b; a]); the round trip really reorders *)
+Theorem C19_marshal_roundtrip_dagjson_example : forall q n32 cid_ok,
+  is_any t_msi = false /\ bindable t_msi s_msi = true /\ gv_ok q n32 t_msi s_msi g_msi = true /\
+  json_within cid_ok (denote LRepr t_msi g_msi).
+Proof. exact dagjson_hyps_sat. Qed.
+Print Assumptions C19_marshal_roundtrip_dagjson_example.
